@@ -24,6 +24,7 @@ def polyStep (toks : List String) : Option String :=
   | ["shift", t0, a, c] => do pure (showQs (shift (← parseQ t0) (← parseQ a) (← parseQs c)))
   | ["der", n, c] => do pure (showQs (derN (← n.toNat?) (← parseQs c)))
   | ["min", c] => do pure (showQs (minimize (← parseQs c)))
+  | ["min2", p] => do pure (showRows (minimize2 (← parseRows p)))
   | ["eval2", p, x, y] => do pure (showQ (eval2 (← parseRows p) (← parseQ x) (← parseQ y)))
   | ["shift2", s1, a1, s2, a2, p] => do
     pure (showRows (shift2 (← parseQ s1) (← parseQ a1) (← parseQ s2) (← parseQ a2) (← parseRows p)))
